@@ -1,6 +1,6 @@
 import Driver.Codec
-import CardVerif.Model.Misc
-import CardVerif.Model.Omaha
+import CardModel.Model.Misc
+import CardModel.Model.Omaha
 open Lean CardVerif CardVerif.Codec CardVerif.Misc
 
 namespace CardVerif.Driver
